@@ -5,7 +5,7 @@ CHECK = {
     'rule': ('one deterministic operation script per container family (map; vector with constructor/destructor; narrow and wide '
              'string; hash table with resizes during a rehash and shrink_to_fit; unique/shared/weak pointers; arrays with slices '
              'and an external buffer); a fault-free run counts the library\'s allocation requests N; then every single ordinal '
-             'failing, every suffix failing, every pair, every triple (N <= 24) and seeded random masks (quick 1500, thorough 40000 '
+             'failing, every suffix failing, every pair, every triple (N <= 24) and seeded random masks (quick 6000, thorough 60000 '
              'per script) are executed; each call is checked against both admissible outcomes (normal / documented failure), '
              '"failure => a failpoint fired inside this call" and "no failpoint fired => normal", contents are re-audited after '
              'every call, after the faults stop the script continues with further use, then releases everything (no live block '
